@@ -302,7 +302,8 @@ impl<R: Round, const B: Word> FBig<R, B> {
         // one less than the maximum for large precisions)
         let (down, up) = (ilog_exact(B, NewB) as usize, ilog_exact(NewB, B) as usize);
         let precision = if down > 1 {
-            self.context.precision * down
+            // a product beyond usize::MAX is as good as unlimited: saturate instead of overflowing
+            self.context.precision.saturating_mul(down)
         } else if up > 1 {
             self.context.precision / up
         } else {
